@@ -273,6 +273,8 @@ def abort_case(case):
     if raised:
       # execute() left without waiting for its executor thread (the listed before-wait finding).  What that thread still
       # does - plug tearDown above all - belongs to the run: let it finish before the log is judged.
+      s.signals = {}      # the run is over for its caller: nothing further is injected while the leftovers finish
+      s.signals_pending = 0
       s.sleep(30.0)
     incomplete = []
     if cbs:
